@@ -2,6 +2,7 @@ package cmd
 
 import (
 	"math/rand"
+	"os"
 )
 
 // H_C18_seed: an explicitly given --seed (anything but the documented -1
@@ -27,4 +28,50 @@ func H_C18_seed() {
 		sxAssert(a == b, "with an explicit --seed the generator's seed does not depend on the clock")
 		sxAssert(a == c, "an explicit --seed is the seed given to the generator")
 	}
+}
+
+// H_C18_cmd_reseed: the commands that draw random numbers, run twice in one
+// process through cobra's Execute with the same --seed on the same input,
+// write the same text (whatever ran before with another seed).
+func H_C18_cmd_reseed() {
+	cmds := [][]string{
+		{"shuffletips"}, {"rotate", "rand"}, {"sample", "-n", "1"}, {"prune", "--random", "2"},
+		{"brlen", "setrand"}, {"support", "setrand"}, {"resolve"},
+	}
+	k := sxChoose("command", len(cmds))
+	sxOpt("seeded-rand", true)
+	// one small multifurcating tree: every draw used as an index splits the path
+	saved := zzEffectTrees
+	zzEffectTrees = []string{"(a:1,b:2,(c:0.25,d:4,e:1)0.4:0.125);"}
+	if cmds[k][0] == "sample" {
+		// sampling needs several trees to draw at all
+		zzEffectTrees = []string{"(a:1,b:2,c:3);", "(a:2,b:3,c:1);", "(a:3,b:1,c:2);"}
+	}
+	defer func() { zzEffectTrees = saved }()
+	dir, in, out := "", "in", "out"
+	if !sxSymbolic() {
+		d, e := os.MkdirTemp("", "zzvh")
+		if e != nil {
+			panic(e)
+		}
+		defer os.RemoveAll(d)
+		dir, in, out = d, d+"/in.nw", d+"/out.txt"
+	}
+	seedv := []string{"7", "0"}[sxChoose("seed", sxParam("nseeds", 1))]
+	line := func(c []string, s string) []string {
+		return append(append([]string{}, c...), "-i", in, "-o", out, "--seed="+s)
+	}
+	if sxChoose("usedbefore", 2) == 1 {
+		// (a command whose draws are not used as indices: no case split)
+		zzEffectRun(line([]string{"brlen", "setrand"}, "99"), dir, false)
+	}
+	out1, fail1 := zzEffectRun(line(cmds[k], seedv), dir, false)
+	sxReach("first")
+	out2, fail2 := zzEffectRun(line(cmds[k], seedv), dir, false)
+	sxAssert(!fail1 && !fail2, "the command succeeds")
+	sxAssert(out1 == out2, "same command line, input and seed: same output when repeated in one process")
+	if out1 != "" {
+		sxReach("wrote-output")
+	}
+	sxReach("checked")
 }
